@@ -4,6 +4,8 @@
  *   r buf2id <hex>             mpt_message_buf2id(bytes, len, &id)
  *   r ctx <w> [noptr]          mpt_reply_deferrable(w, send_cb, transport)   (noptr: transport pointer NULL)
  *   r arm <hex>                convert(TypeReplyDataPtr) + mpt_reply_set(rd, len, bytes)
+ *   r creply <code> <text-hex> mpt_context_reply(rc, code, "%s", text)
+ *   r probe                    convert(0), convert(unknown), clone, addref/unref of the context object
  *   r reply <hex|none>         convert(TypeReplyPtr) + rc->reply(rc, msg)
  *   r defer                    rc->defer(rc)  -> handle token h<k>
  *   r dreply <k> <hex|none>    handle k ->reply(msg)
@@ -108,6 +110,16 @@ static int parse_msg(const char *s, MPT_STRUCT(message) *msg, uint8_t **dat, int
 	memset(msg, 0, sizeof(*msg));
 	msg->base = *dat; msg->used = n;
 	return 0;
+}
+/* interface pointers and their vtables as handed out by the context at creation; 1 = record, 0 = compare */
+static int ctx_snapshot(int record)
+{
+	static void *rc0, *rd0; static const void *vp0, *vm0;
+	MPT_INTERFACE(reply_context) *rc = 0; MPT_STRUCT(reply_data) *rd = 0;
+	if (!ctx) return 1;
+	if (MPT_metatype_convert(ctx, MPT_ENUM(TypeReplyPtr), &rc) < 0 || MPT_metatype_convert(ctx, MPT_ENUM(TypeReplyDataPtr), &rd) < 0) return 0;
+	if (record) { rc0 = rc; rd0 = rd; vp0 = rc ? rc->_vptr : 0; vm0 = ctx->_vptr; return 1; }
+	return rc == rc0 && rd == rd0 && rc && rc->_vptr == vp0 && ctx->_vptr == vm0 && (void *) rc != (void *) rd;
 }
 static void release_all(void)
 {
@@ -441,16 +453,51 @@ int main(void)
 			release_all();
 			memcpy(sched, ks, sizeof(ks)); nsched = keep_n; psched = keep_p;
 			ctx = mpt_reply_deferrable(a, send_cb, drv_nw == 4 ? 0 : &transport);
+			ctx_snapshot(1);
 			result(ctx ? "ok" : "refused", 0);
 		}
+		else if (!strcmp(op, "probe") && drv_nw == 2) {
+			/* the other metatype entry points of the context: type list, unknown type, clone, extra reference */
+			if (!ctx) { puts("bad-op"); continue; }
+			const uint8_t *fmt = 0; void *p = 0;
+			int r0 = MPT_metatype_convert(ctx, 0, &fmt);
+			int r1 = MPT_metatype_convert(ctx, 0, 0);
+			int r2 = MPT_metatype_convert(ctx, 'x', &p);
+			void *cl = ctx->_vptr->clone(ctx);
+			uintptr_t ref = ctx->_vptr->addref(ctx);
+			if (ref) ctx->_vptr->unref(ctx);       /* an extra reference is dropped like a deferred handle's */
+			char v[128];
+			snprintf(v, sizeof(v), "ok types=%02x%02x conv0=%d,%d unknown=%s clone=%s ref=%lu %s", fmt ? fmt[0] : 0, fmt ? fmt[1] : 0, r0, r1,
+			         r2 < 0 ? drv_errname(r2) : "ok", cl ? "yes" : "no", (unsigned long) ref, ctx_snapshot(0) ? "ctx=intact" : "ctx=CHANGED");
+			result(v, 0);
+		}
+		else if (!strcmp(op, "creply") && drv_nw == 4) {
+			/* mpt_context_reply(rc, code, "%s", text): answer header + text through the context */
+			long code; char *e;
+			code = strtol(drv_w[2], &e, 10);
+			if (!ctx || *e || e == drv_w[2] || drv_w[2][0] == '+' || code < -1000 || code > 1000 || drv_parse_data(drv_w[3], &dat, &dlen, &isnull) || isnull
+			    || dlen > 600 || (dlen && memchr(dat, 0, dlen))) { puts("bad-op"); free(dat); continue; }
+			MPT_INTERFACE(reply_context) *rc = 0;
+			int r = MPT_metatype_convert(ctx, MPT_ENUM(TypeReplyPtr), &rc);
+			if (r < 0 || !rc) { result("noconv", r); free(dat); continue; }
+			char *txt = malloc(dlen + 1);
+			memcpy(txt, dat, dlen); txt[dlen] = 0;
+			free(dat);
+			r = dlen ? mpt_context_reply(rc, code, "%s", txt) : mpt_context_reply(rc, code, 0);
+			free(txt);
+			result(r < 0 ? "refused" : "ok", r);
+		}
 		else if (!strcmp(op, "arm") && drv_nw == 3) {
-			if (!ctx || drv_parse_data(drv_w[2], &dat, &dlen, &isnull) || isnull) { puts("bad-op"); free(dat); continue; }
+			/* `zero:<n>`: mpt_reply_set with a null data pointer (n zero bytes) */
+			if (!ctx || drv_parse_data(drv_w[2], &dat, &dlen, &isnull) || dlen > 70000) { puts("bad-op"); free(dat); continue; }
+			int zero = isnull;
 			MPT_STRUCT(reply_data) *rd = 0;
 			int r = MPT_metatype_convert(ctx, MPT_ENUM(TypeReplyDataPtr), &rd);
 			if (r < 0 || !rd) { result("noconv", r); free(dat); continue; }
-			r = mpt_reply_set(rd, dlen, dat);
+			r = mpt_reply_set(rd, dlen, zero ? 0 : dat);
 			free(dat);
-			result(r < 0 ? "refused" : "ok", r);
+			/* "arming never disturbs the reply context itself": the context still hands out the same interfaces */
+			result(r < 0 ? (ctx_snapshot(0) ? "refused ctx=intact" : "refused ctx=CHANGED") : (ctx_snapshot(0) ? "ok ctx=intact" : "ok ctx=CHANGED"), r);
 		}
 		else if (!strcmp(op, "reply") && drv_nw == 3) {
 			MPT_STRUCT(message) msg; int none;
